@@ -268,3 +268,19 @@ def t_min_samples(data: List[int]) -> bool:
     post: not _
     """
     return _min_samples(data)
+
+
+def c_min_samples_rows(data: List[List[int]]) -> bool:
+    """
+    pre: len(data) <= 4 and all(len(r) == 2 for r in data)
+    post: _
+    """
+    return _min_samples(data)
+
+
+def t_min_samples_rows(data: List[List[int]]) -> bool:
+    """
+    pre: len(data) <= 4 and all(len(r) == 2 for r in data)
+    post: not _
+    """
+    return _min_samples(data)
